@@ -5,47 +5,59 @@ import glob, json, os, re, subprocess, sys, tempfile, shutil
 from concurrent.futures import ThreadPoolExecutor
 
 
-def run_check(pr, wt):
-    c = subprocess.run(["/verif/check", pr, "--repo", wt], capture_output=True, text=True, cwd="/verif")
-    keys = re.findall(r"VIOLATION property=\S+ replay=\S+/replay/[A-Z0-9]+-(\S+)\.json", c.stdout)
-    und = re.findall(r"UNDECIDED rule=(\S+) (.*)", c.stdout)
-    mach = (c.stderr[-400:] if c.returncode == 2 else None)
-    return pr, c.returncode, keys, und, mach
+def run_all(wt):
+    """all 19 properties in one process (shared facts and partial-evaluation results); -> {prop: (rc, keys, rules, undecided)}"""
+    import os, re, subprocess
+    env = dict(os.environ, FQR_GEOM_ALL="1")
+    c = subprocess.run(["/verif/check", "ALL", "--repo", wt], capture_output=True, text=True, cwd="/verif", env=env)
+    out = {}
+    for m in re.finditer(r"^==== (C\d\d)\n(.*?)^==== \1 exit=(\d)", c.stdout, re.S | re.M):
+        pr, body, rc = m.group(1), m.group(2), int(m.group(3))
+        keys = re.findall(r"VIOLATION property=\S+ replay=\S+/replay/[A-Z0-9]+-(\S+)\.json", body)
+        rules = sorted(set(re.findall(r"^  rule=(\S+)", body, re.M)))
+        und = re.findall(r"UNDECIDED rule=(\S+) (.*)", body)
+        mach = re.findall(r"MACHINERY-ERROR.*", body)
+        out[pr] = (rc, keys, rules, und, mach)
+    if len(out) != 19:
+        out["_error"] = (2, [], [], [], [c.stdout[-300:] + c.stderr[-300:]])
+    return out
+
+
+def one(patch):
+    name = "/".join(patch.split("/")[-3:-1])
+    d = tempfile.mkdtemp(prefix="fqr-refac-")
+    wt = os.path.join(d, "repo")
+    try:
+        subprocess.run(["git", "-C", "/repo", "worktree", "add", "--detach", "-q", wt, "HEAD"], check=True)
+        a = subprocess.run(["git", "-C", wt, "apply", patch], capture_output=True, text=True)
+        if a.returncode:
+            return name + " PATCH DOES NOT APPLY " + a.stderr[:200]
+        out = {"patch": name, "alarms": {}, "undecided": {}, "machinery": {}}
+        for pr, (rc, keys, rules, und, mach) in sorted(run_all(wt).items()):
+            if keys:
+                out["alarms"][pr] = keys[:6]
+            if und:
+                out["undecided"][pr] = [u[0] + " " + u[1][:100] for u in und[:4]]
+            if mach or rc == 2:
+                out["machinery"][pr] = mach[:2] or ["exit 2"]
+        with open("/tmp/refac/results.jsonl", "a") as f:
+            f.write(json.dumps(out) + "\n")
+        return "%s %s %s %s undecided: %s" % (name, "ALARMS" if out["alarms"] or out["machinery"] else "silent", json.dumps(out["alarms"]),
+                                              json.dumps(out["machinery"])[:300], sorted(out["undecided"]))
+    finally:
+        subprocess.run(["git", "-C", "/repo", "worktree", "remove", "--force", wt], capture_output=True)
+        subprocess.run(["git", "-C", "/repo", "worktree", "prune"], capture_output=True)
+        shutil.rmtree(d, ignore_errors=True)
 
 
 def main():
     dirs = []
     for a in sys.argv[1:]:
         dirs += sorted(glob.glob(os.path.join(a, "r*", "patch.diff")))
-    for patch in dirs:
-        name = "/".join(patch.split("/")[-3:-1])
-        d = tempfile.mkdtemp(prefix="fqr-refac-")
-        wt = os.path.join(d, "repo")
-        try:
-            subprocess.run(["git", "-C", "/repo", "worktree", "add", "--detach", "-q", wt, "HEAD"], check=True)
-            a = subprocess.run(["git", "-C", wt, "apply", patch], capture_output=True, text=True)
-            if a.returncode:
-                print(name, "PATCH DOES NOT APPLY", a.stderr[:200])
-                continue
-            with ThreadPoolExecutor(8) as ex:
-                res = list(ex.map(lambda p: run_check(p, wt), ["C%02d" % i for i in range(1, 20)]))
-            out = {"patch": name, "alarms": {}, "undecided": {}, "machinery": {}}
-            for pr, rc, keys, und, mach in res:
-                if keys:
-                    out["alarms"][pr] = keys[:6]
-                if und:
-                    out["undecided"][pr] = [u[0] + " " + u[1][:100] for u in und[:4]]
-                if mach:
-                    out["machinery"][pr] = mach
-            print(name, "ALARMS" if out["alarms"] or out["machinery"] else "silent", json.dumps(out["alarms"]), json.dumps(out["machinery"])[:300],
-                  "undecided:", sorted(out["undecided"]))
+    with ThreadPoolExecutor(4) as ex:
+        for line in ex.map(one, dirs):
+            print(line)
             sys.stdout.flush()
-            with open("/tmp/refac/results.jsonl", "a") as f:
-                f.write(json.dumps(out) + "\n")
-        finally:
-            subprocess.run(["git", "-C", "/repo", "worktree", "remove", "--force", wt], capture_output=True)
-            subprocess.run(["git", "-C", "/repo", "worktree", "prune"], capture_output=True)
-            shutil.rmtree(d, ignore_errors=True)
 
 
 main()
